@@ -1,1 +1,105 @@
-From Ase Require Import Model.Dump.
+(* C02: a frame's image is the bottom-to-top composition of its visible cels. *)
+From Ase Require Import Base.Prelude.
+From Ase Require Import Model.Render.
+From Ase Require Import Proofs.Layers.
+From Ase Require Import Proofs.RenderRaw.
+From Ase Require Import Proofs.RenderFrame.
+From Ase Require Import Spec.Compose.
+From Ase Require Import Proofs.RenderValid.
+
+(* the frame image has the canvas dimensions (no side conditions) *)
+Theorem C02_dims : forall f fr img, frame_image f fr = Ok img -> iw img = f_width f /\ ih img = f_height f.
+Proof. exact frame_image_dims. Qed.
+Print Assumptions C02_dims.
+
+(* every canvas pixel is the fold of Spec/Compose.v: starting from the transparent pixel, for
+   each layer id in ascending order that has a cel in the frame and is visible, the cel (one link
+   followed) blends its pixel at that position, if it has one there, with the layer's blend mode
+   and opacity mul_un8 (layer opacity) (cel opacity); raw cels in all three pixel formats and
+   tilemap cels *)
+Theorem C02_compose : forall f fr img, render_wf f -> frame_image f fr = Ok img ->
+  iw img = f_width f /\ ih img = f_height f /\
+  forall x y, 0 <= x < f_width f -> 0 <= y < f_height f -> spec_pixel f fr x y = Some (img_get img x y).
+Proof. exact frame_image_compose. Qed.
+Print Assumptions C02_compose.
+
+(* a pixel inside no visible cel's rectangle stays fully transparent *)
+Theorem C02_uncovered : forall f fr img x y, render_wf f -> frame_image f fr = Ok img ->
+  0 <= x < f_width f -> 0 <= y < f_height f ->
+  (forall l c0 lay c, 0 <= l < num_layers f -> cel_at f fr l = Some c0 -> visibleb f l = true ->
+     aget (f_layers f) l = Some lay -> resolve f c0 l = Some c -> cel_covers f lay c x y = false) ->
+  img_get img x y = transparent.
+Proof. exact frame_uncovered. Qed.
+Print Assumptions C02_uncovered.
+
+(* the order in which cel chunks are stored does not matter: adding two cels with different
+   (frame, layer) keys in either order succeeds alike and yields tables with identical rows *)
+Theorem C02_order : forall t n f1 c1 f2 c2 t1 t12,
+  0 <= f1 -> 0 <= f2 -> (f1, cc_layer (c_data c1)) <> (f2, cc_layer (c_data c2)) ->
+  table_add_cel t n f1 c1 = Ok t1 -> table_add_cel t1 n f2 c2 = Ok t12 ->
+  exists t2 t21, table_add_cel t n f2 c2 = Ok t2 /\ table_add_cel t2 n f1 c1 = Ok t21 /\
+    (forall fr, get_row t12 fr = get_row t21 fr) /\
+    (forall nf fr l, table_cel t12 nf fr l = table_cel t21 nf fr l).
+Proof. exact table_add_cel_comm. Qed.
+Print Assumptions C02_order.
+
+(* and the frame image reads the cel table only through its rows *)
+Theorem C02_order_image : forall f t' fr, (forall fr, get_row t' fr = get_row (f_cels f) fr) ->
+  frame_image (with_cels f t') fr = frame_image f fr.
+Proof. exact frame_image_rows. Qed.
+Print Assumptions C02_order_image.
+
+(* write_raw_cel_to_image per pixel: inside the cel rectangle (clipped to the canvas) the old pixel
+   is blended with the stored pixel; everything else is unchanged *)
+Theorem C02_write_raw : forall img cc w h px mode lop img',
+  write_raw img cc w h px mode lop = Ok img' ->
+  iw img' = iw img /\ ih img' = ih img /\
+  forall x y, 0 <= x < iw img -> 0 <= y < ih img ->
+    (cc_x cc <= x < cc_x cc + w /\ cc_y cc <= y < cc_y cc + h ->
+       exists p, aget px ((y - cc_y cc) * w + (x - cc_x cc)) = Some p /\
+                 Some (img_get img' x y) = blend mode (img_get img x y) p (mul_un8 lop (cc_opacity cc))) /\
+    (~ (cc_x cc <= x < cc_x cc + w /\ cc_y cc <= y < cc_y cc + h) -> img_get img' x y = img_get img x y).
+Proof. exact write_raw_spec. Qed.
+Print Assumptions C02_write_raw.
+
+(* it returns unless a blend function panics, once the buffer holds w*h pixels *)
+Theorem C02_write_raw_total : forall img cc w h px mode lop,
+  0 <= w -> (forall i, 0 <= i < w * h -> aget px i <> None) ->
+  (exists img', write_raw img cc w h px mode lop = Ok img') \/ write_raw img cc w h px mode lop = Panic 302.
+Proof. exact write_raw_ok_or_blend_panic. Qed.
+Print Assumptions C02_write_raw_total.
+
+(* write_tilemap_cel_to_image per pixel *)
+Theorem C02_write_tilemap : forall img cc tm tw th px mode lop img',
+  0 < tw -> 0 < th ->
+  write_tilemap img cc tm tw th px mode lop = Ok img' ->
+  iw img' = iw img /\ ih img' = ih img /\
+  forall x y, 0 <= x < iw img -> 0 <= y < ih img ->
+    let dx := x - cc_x cc in
+    let dy := y - cc_y cc in
+    (0 <= dx < tm_w tm * tw /\ 0 <= dy < tm_h tm * th ->
+       exists tile_id p,
+         aget (tm_tiles tm) ((dy / th) * tm_w tm + dx / tw) = Some tile_id /\
+         aget px (tw * th * tile_id + ((dy mod th) * tw + dx mod tw)) = Some p /\
+         Some (img_get img' x y) = blend mode (img_get img x y) p (mul_un8 lop (cc_opacity cc))) /\
+    (~ (0 <= dx < tm_w tm * tw /\ 0 <= dy < tm_h tm * th) -> img_get img' x y = img_get img x y).
+Proof. exact write_tilemap_spec. Qed.
+Print Assumptions C02_write_tilemap.
+
+Theorem C02_write_tilemap_total : forall img cc tm tw th px mode lop,
+  (forall i, 0 <= i < tm_w tm * tm_h tm ->
+     exists tid, aget (tm_tiles tm) i = Some tid /\ 0 <= tid /\ tw * th * (tid + 1) <= alen px) ->
+  (forall i, 0 <= i < alen px -> aget px i <> None) ->
+  (exists img', write_tilemap img cc tm tw th px mode lop = Ok img') \/
+  write_tilemap img cc tm tw th px mode lop = Panic 302.
+Proof. exact write_tilemap_ok_or_blend_panic. Qed.
+Print Assumptions C02_write_tilemap_total.
+
+(* end to end: for every file that loads (from bytes), with no further hypothesis
+   (uses the invariant Valid of Proofs/Valid.v established by load) *)
+Theorem C02_compose_loaded : forall inflate bs f fr img, Forall is_byte bs -> load inflate bs = Ok f ->
+  frame_image f fr = Ok img ->
+  iw img = f_width f /\ ih img = f_height f /\
+  forall x y, 0 <= x < f_width f -> 0 <= y < f_height f -> spec_pixel f fr x y = Some (img_get img x y).
+Proof. exact frame_image_compose_loaded. Qed.
+Print Assumptions C02_compose_loaded.
